@@ -26,6 +26,7 @@ Contract(
         ("registered_present", "node.bridged_form in self._registry and worker.id in self._registry[node.bridged_form]"),
         ("keys_only_grow", "forall(STR, lambda f: implies(old(f in self._registry), f in self._registry))"),
         ("no_other_node_key", "forall(STR, lambda f: implies(f in self._registry and f != node.bridged_form, old(f in self._registry)))"),
+        ("other_registers_untouched", "forall(Ref('EdgeRegister'), lambda r: implies(r != self, r._registry == old(r._registry)))"),
     ],
     frame=["EdgeRegister._registry"],
     props=["C16"],
